@@ -18,5 +18,7 @@ RULES = [
     ("C06.iter", lambda c, r: lfht.rule_iter(c, r, "C06.iter")),
     ("C06.del", lambda c, r: lfht.rule_del(c, r, "C06.del")),
     ("C06.partition", lambda c, r: c09.rule_partition(c, r, "C06.partition")),
+    # an updater that picked its bucket with the pre-shrink size must be out of its read-side section before that bucket goes
+    ("C06.shrink", lambda c, r: lfht.rule_shrink(c, r, "C06.shrink")),
 ]
 FLOORS = {}
